@@ -223,6 +223,8 @@ Proof.
     destruct (negb (subseteqb ex (free_shar s (g_pool g)))) eqn:H2; [discriminate|].
     apply negb_false_iff, subseteqb_true in H1. apply negb_false_iff, subseteqb_true in H2.
     destruct (alloc_shared t s (g_pool g) <? 1000 * csize ex + g_portion g) eqn:Hcap; [discriminate|].
+    destruct (negb (spare_allb t s (g_pool g) (g_excl g))); [discriminate|].
+    destruct (_ && _); [discriminate|].
     intros [= <-]. split; [reflexivity|]. exists (g_portion g). split; [exact Hpos|]. split; [intros q; reflexivity|].
     intros a Ha Hlt.
     assert (Heq : free_shar s a ∖ g_excl g = free_shar s a ∖ ex).
@@ -343,6 +345,7 @@ Proof.
   assert (g0 = g).
   { revert H Hg. unfold ta_reserve. destruct (g_type g).
     - destruct (negb _); [discriminate|]. destruct (negb _); [discriminate|]. destruct (_ <? _); [discriminate|].
+      destruct (negb (spare_allb _ _ _ _)); [discriminate|]. destruct (_ && _); [discriminate|].
       intros [= <-]. cbn [grants set_grants account_alloc]. intros Hg.
       assert (Hl := f_equal (fun m => m !! cid) Hg). cbn in Hl. rewrite !lookup_insert in Hl. congruence.
     - destruct (negb _); [discriminate|]. destruct (_ && _); [discriminate|].
@@ -420,6 +423,46 @@ Proof.
     apply desc_safeb_of_cap; [exact HC|]. intros d. set_solver.
 Qed.
 
+Lemma spare_allb_okb s p (X : cset) : spare_allb t s p X = true -> spare_okb t s p X = true.
+Proof.
+  unfold spare_allb, spare_okb. rewrite !forallb_forall. intros H d Hd. specialize (H d Hd).
+  destruct (anc t p d); cbn [negb orb] in *; [|reflexivity]. rewrite H. apply orb_true_r.
+Qed.
+
+(* ... and so does a reinstatement (Reserve), since it carries the same test *)
+Lemma ta_reserve_guard s cid g s' :
+  tree_wf2 -> Inv t s -> Cap s -> ta_reserve t s cid g = Ok s' -> desc_safeb t s (g_pool g) (g_excl g) = true.
+Proof.
+  intros Hwf HI HC. unfold ta_reserve. destruct (g_type g).
+  - destruct (negb _); [discriminate|]. destruct (negb _); [discriminate|]. destruct (_ <? _); [discriminate|].
+    destruct (negb (spare_allb t s (g_pool g) (g_excl g))) eqn:Hsp; [discriminate|]. intros _.
+    apply negb_false_iff in Hsp. exact (spare_okb_safe s (g_pool g) (g_excl g) HC (spare_allb_okb s _ _ Hsp)).
+  - destruct (negb (bool_decide (g_excl g = ∅))) eqn:H1; [discriminate|]. intros _.
+    apply negb_false_iff, bool_decide_eq_true in H1. rewrite H1.
+    apply desc_safeb_of_cap; [exact HC|]. intros d. set_solver.
+  - destruct (negb (bool_decide (g_excl g = ∅))) eqn:H1; [discriminate|]. intros _.
+    apply negb_false_iff, bool_decide_eq_true in H1. rewrite H1.
+    apply desc_safeb_of_cap; [exact HC|]. intros d. set_solver.
+Qed.
+
+(* every history whose reinstated grants carry non-negative portions passes the guards by itself *)
+Definition nonneg_reserve (o : op) : bool := match o with OReserve _ g => 0 <=? g_portion g | _ => true end.
+
+Lemma run_all_guarded os : forall s s', tree_wf2 -> J s -> forallb nonneg_reserve os = true ->
+  run t s os = Ok s' -> run_g s os = Ok s'.
+Proof.
+  induction os as [|o os IH]; intros s s' Hwf HJ Hall; cbn [run run_g]; [auto|].
+  cbn [forallb] in Hall. apply andb_true_iff in Hall as [Ho Hos].
+  destruct (step t s o) as [s1|e] eqn:Hs; [|discriminate].
+  assert (Hg : op_guard s o = true).
+  { destruct HJ as (HI & HC & _). destruct o as [cid r p X|cid|cid|cid g|]; cbn [op_guard]; try reflexivity.
+    - cbn [step] in Hs. destruct (grants s !! cid); [discriminate|]. destruct (p <? length t)%nat; [|discriminate].
+      exact (ta_alloc_guard s cid r p X s1 Hwf HI HC Hs).
+    - cbn [step] in Hs. destruct (grants s !! cid); [discriminate|]. destruct (g_pool g <? length t)%nat; [|discriminate].
+      rewrite (ta_reserve_guard s cid g s1 Hwf HI HC Hs). cbn [nonneg_reserve] in Ho. rewrite Ho. reflexivity. }
+  rewrite Hg. intros H. exact (IH s1 s' Hwf (step_J s o s1 Hwf HJ Hg Hs) Hos H).
+Qed.
+
 (* histories without reinstatement (no Reserve): no guard is needed *)
 Definition no_reserve (o : op) : bool := match o with OReserve _ _ => false | _ => true end.
 
@@ -482,15 +525,10 @@ Definition k2_ops_ok : list op :=
 Lemma k2_other_choice_accepted : match run k2_tree (init k2_tree) k2_ops_ok with Ok _ => True | Err _ => False end.
 Proof. vm_compute. exact I. Qed.
 
-(* Reinstatement (Reserve) makes no such test: the full-strength statement, with Reserve and without the guard,
-   is still false of the faithful model. *)
+(* Reinstatement (Reserve) carries the same test since the repair of K2/K10: the history that used to oversubscribe
+   pool 0 by reinstating a slicing grant at the root is refused, too. *)
 Definition k2r_ops : list op :=
   [ OReserve 1 {| g_pool := 0; g_excl := ∅; g_type := CpuNormal; g_portion := 2500%Z |};
     OReserve 3 {| g_pool := 2; g_excl := lset [1;2;3]; g_type := CpuNormal; g_portion := 0%Z |} ].
-Lemma capacity_refuted :
-  tree_wfb2 k2_tree = true /\
-  match run k2_tree (init k2_tree) k2r_ops with
-  | Ok s => (granted_sub k2_tree (gr_shared s) 0 >? 1000 * csize (free_shar s 0))%Z = true /\
-            bool_decide (told_cpus k2_tree s {| g_pool := 0; g_excl := ∅; g_type := CpuNormal; g_portion := 2500%Z |} = ∅) = true
-  | Err _ => False end.
-Proof. split; [vm_compute; reflexivity|]. vm_compute. split; reflexivity. Qed.
+Lemma k2_reserve_refused : run k2_tree (init k2_tree) k2r_ops = Err (ErrGuard 13).
+Proof. vm_compute. reflexivity. Qed.
